@@ -126,20 +126,39 @@ def run(ctx):
     names = gen.FAST if ctx.quick else gen.ALL
     results = []
     n = 100 if ctx.quick else 700
-    for i in range(n):
-        name = names[i % len(names)]
+    # targeted: grid search (both directions, step sizes 1-2) with the strict maximum at the origin, one random initial position and a
+    # few grid steps -- the first grid step is the best row, the later ones must not disturb it
+    grid_targets = [(d_, st_) for d_ in ("diagonal", "orthogonal") for st_ in (1, 2) for _ in range(3)]
+    for i in range(n + len(grid_targets)):
+        name = names[i % len(names)] if i < n else "GridSearchOptimizer"
         spec = dunit.general_spec(rng, name, max_calls=3, metrics=0, nonfinite=rng.choice([0, 0, 0.2, 0.6]),
                                   constraint=rng.random() < 0.3, sizes=(2, 3, 5), max_points=60, n_max=12)
+        if i >= n:
+            d_, st_ = grid_targets[i - n]
+            spec = dunit.general_spec(rng, name, max_calls=1, metrics=0, nonfinite=0, constraint=False, sizes=(3, 4, 5), max_points=130, n_max=12)
+            spec["cfg"] = dict(direction=d_, step_size=st_)
+            spec["table"] = {p_: (-float(sum(p_)), None) for p_ in spec["table"]}
+            spec["init"] = {"random": 1}
+            spec["calls"][0]["n_iter"] = 1 + rng.randint(3, 6)
+            spec["calls"][0].pop("memory_warm_start", None)
         if name in ("GeneticAlgorithmOptimizer", "DifferentialEvolutionOptimizer"):
             spec["cfg"] = {k: v for k, v in (spec["cfg"] or {}).items() if k != "population"}
-        if rng.random() < 0.5:
+        if i < n and rng.random() < 0.5:
             spec["table"] = gen.gen_table(rng, spec["space"], kind=rng.choice(["plateau", "negative", "mixed"]),
                                           nonfinite=rng.choice([0, 0.3]))[0]
-        if rng.random() < 0.1:       # everything -inf / NaN
+        if i < n and (rng.random() < 0.15 or (name == "GridSearchOptimizer" and rng.random() < 0.8)):
+            # the strict maximum sits at a corner of the space (mostly the origin), only random initial positions, and the run goes on
+            # after the first iteration step: the best position must survive everything the optimizer does to its arrays afterwards
+            dims_ = [len(v) for v in spec["space"].values()]
+            corner = tuple(0 for _ in dims_) if rng.random() < 0.7 else tuple(rng.choice([0, d_ - 1]) for d_ in dims_)
+            spec["table"] = {p_: (-float(sum(abs(a_ - b_) for a_, b_ in zip(p_, corner))), None) for p_ in spec["table"]}
+            spec["init"] = {"random": rng.randint(1, 3)}
+            spec["calls"][0]["n_iter"] = spec["init"]["random"] + rng.randint(2, 7)
+        if i < n and rng.random() < 0.1:       # everything -inf / NaN
             spec["table"] = {k: (rng.choice([-INF, -INF, NAN]), None) for k in spec["table"]}
         # a memory_warm_start frame holding the TRUE scores of some points (as an earlier search_data would), with a permuted /
         # score-sorted / filtered index: the best result must still satisfy objective(best_para) == best_score
-        if rng.random() < 0.3:
+        if i < n and rng.random() < 0.3:
             import pandas as pd
             names_ = list(spec["space"].keys())
             allp = gen.all_positions(spec["space"])
